@@ -87,7 +87,12 @@ func runC03(e *Engine, g G, o RunOpt) RunInfo {
 	// the previous session was on TLS (the next server may not offer it)
 	sc.PreTLS = (sc.Pre || sc.PrePlain) && certAccepted(sc.Client, CertGood) && g.Bool("pre-tls")
 	if !sc.Pre && !sc.PrePlain && sc.Client.Insecure && g.Pct("pre-failed", 25) {
-		sc.PreFailed = []string{"bind-error", "auth-close", "enable-failed", "header3-close"}[g.N("pre-failed-kind", 4)]
+		sc.PreFailed = []string{"bind-error", "auth-close", "enable-failed", "header3-close", "header-close-then-slow-server", "header-close-then-slow-server"}[g.N("pre-failed-kind", 6)]
+		if sc.PreFailed == "header-close-then-slow-server" {
+			// the application retries at once, and this time the server takes its time: the negotiation is
+			// still under way when every timer the failed attempt may have left behind has fired
+			sc.Server.DelayMs = sc.Client.ConnectTimeout * 1000 * 2 / 5
+		}
 	}
 	sc.Via = "Connect"
 	if (sc.Pre || sc.PrePlain || sc.PreFailed != "") && g.Bool("via") {
@@ -125,6 +130,8 @@ func runC03(e *Engine, g G, o RunOpt) RunInfo {
 				bad.AuthReply = AuthClose
 			case "enable-failed":
 				bad.Enable = EnableFailed
+			case "header-close-then-slow-server":
+				bad.Header = HdrClose
 			default:
 				bad.Header3 = HdrClose
 			}
@@ -147,7 +154,11 @@ func runC03(e *Engine, g G, o RunOpt) RunInfo {
 				e.Probe("precondition_failed")
 				return
 			}
-			e.Sleep(time.Duration(sc.Client.ConnectTimeout+3) * time.Second)
+			if sc.PreFailed == "header-close-then-slow-server" {
+				e.Probe("c03.retry_at_once_with_a_slow_server")
+			} else {
+				e.Sleep(time.Duration(sc.Client.ConnectTimeout+3) * time.Second)
+			}
 			e.Probe("c03.after_failed_attempt")
 		}
 		if sc.Pre || sc.PrePlain {
